@@ -168,6 +168,7 @@ EvEnd ==
      (* C05 *)
      /\ Check("C05", "VerdictExact", (run.mode = "check" /\ normal /\ ~interrupted /\ ~faulted) =>
                                         VerdictExact(pre, e.exit, run.anyReadable), e.exit)
+     /\ Check("C05", "MissingMeansNonZero", (run.mode = "check" /\ normal /\ ~faulted /\ run.anyReadable /\ AnyMissing(pre)) => e.exit # 0, e.exit)
      /\ Check("C05", "ReportedExact", (run.mode = "check" /\ normal /\ ~interrupted /\ ~faulted /\ run.anyReadable) =>
                                         (ToSet(e.reported) = MissingUids(pre) /\ e.total = Cardinality(MissingUids(pre))),
               [reported |-> e.reported, total |-> e.total])
